@@ -129,6 +129,13 @@ def pStep : P (Except Err (World Float)) := do
     let w2 ← if ran then some <$> pWorld else pure none
     let run : RunFn Float := fun _ _ => match w2 with | some x => pure x | none => throw Err.badPath
     pure (btDay cfg run d w)
+  | "paperday" => do
+    -- one step of a shadow copy (`paperDay`): on row 0 it is only updated, on any other row it gets the loop body;
+    -- the model decides whether the algos run
+    let d ← nat; let ran ← bool
+    let w2 ← if ran then some <$> pWorld else pure none
+    let run : RunFn Float := fun _ _ => match w2 with | some x => pure x | none => throw Err.badPath
+    pure (paperDay cfg run d w)
   | _ => throw s!"unknown op {op}"
 
 def handleStep (line : String) : String :=
